@@ -88,6 +88,7 @@ func cmdCheck(args []string) int {
 	outDir := fs.String("out", "", "directory for evidence/ and replay/ (default: the verif dir)")
 	keep := fs.Bool("keep", false, "keep discharged queries")
 	verbose := fs.Bool("v", false, "verbose")
+	doExplain := fs.Bool("explain", false, "re-solve the conjuncts of failed goals separately")
 	fs.Parse(args)
 	if t := os.Getenv("VERIF_TIER"); t != "" && *tier == "" {
 		*tier = t
@@ -248,6 +249,9 @@ func cmdCheck(args []string) int {
 		fmt.Printf("FAILED obligation %s [%s] at %s\n    clause: %s\n    solver: %s\n", o.Name, o.Status, o.Where, o.Src, firstLine(o.Output))
 		fmt.Printf("VIOLATION property=%s replay=%s no-failing-input-found\n", *prop, rp)
 		samples = append(samples, map[string]any{"obligation": o.Name, "kind": o.Kind, "status": "FAILED:" + o.Status, "clause": o.Src})
+		if *doExplain && oblCtx[o] != nil {
+			explain(oblCtx[o], o, qdir)
+		}
 	}
 	total := len(allObls)
 	wall := time.Since(start).Seconds()
